@@ -468,7 +468,11 @@ theorem delete_inv (H : Bytes → Bytes) (hasDb : Bool) (s : Store) : ∀ (fuel 
     cases n with
     | nil => exact ⟨fun he => by simp [delete] at he, fun e _ => Or.inl rfl⟩
     | empty => exact ⟨fun he => by simp [delete] at he, fun e _ => Or.inl rfl⟩
-    | value h v w d => exact ⟨fun _ => trivial, fun e he => by simp [delete] at he⟩
+    | value h v w d =>
+      simp only [delete]
+      split
+      · exact ⟨fun he => by simp at he, fun e _ => Or.inl rfl⟩
+      · exact ⟨fun _ => trivial, fun e he => by simp at he⟩
     | hashRef h w =>
       simp only [delete]
       cases hr : resolveHash hasDb s h with
